@@ -13,6 +13,7 @@ pub open spec fn lc_followed_markup(ch: Seq<&SyntaxNode>) -> bool {
 pub open spec fn lc_followed(ch: Seq<&SyntaxNode>) -> bool {
     forall|j: int| 0 <= j && j + 1 < ch.len() && (#[trigger] ch[j]).kind_s() == SyntaxKind::LineComment ==> is_nl_space(ch[j + 1])
 }
+pub open spec fn is_item_kind(k: SyntaxKind) -> bool { k == SyntaxKind::ListItem || k == SyntaxKind::EnumItem || k == SyntaxKind::TermItem }
 pub open spec fn last_is_lc(ch: Seq<&SyntaxNode>) -> bool { ch.len() > 0 && ch.last().kind_s() == SyntaxKind::LineComment }
 
 /// `tree_wf(n)`: n belongs to an error-free tree produced by typst_syntax::parse.  Uninterpreted; the facts used are the axioms below.
@@ -33,8 +34,9 @@ pub proof fn pf_children(n: &SyntaxNode)
 pub proof fn pf_line_comments(n: &SyntaxNode)
     requires tree_wf(n),
     ensures
-        n.kind_s() != SyntaxKind::Markup ==> lc_followed(n.children_s()),
-        n.kind_s() == SyntaxKind::Markup ==> lc_followed_markup(n.children_s()),
+        n.kind_s() != SyntaxKind::Markup && !is_item_kind(n.kind_s()) ==> lc_followed(n.children_s()),
+        // in markup, and directly inside a list / enum / term item, the whitespace may also be a paragraph break
+        n.kind_s() == SyntaxKind::Markup || is_item_kind(n.kind_s()) ==> lc_followed_markup(n.children_s()),
         n.kind_s() != SyntaxKind::Markup ==> !last_is_lc(n.children_s()),
 {}
 /// PF2: leaf texts. A LineComment's text starts with `//` and contains no newline; no other leaf's text starts with `//`
@@ -46,6 +48,8 @@ pub proof fn pf_leaf_text(n: &SyntaxNode)
     ensures
         n.kind_s() == SyntaxKind::LineComment ==> lc_text(n.text_s()),
         n.kind_s() == SyntaxKind::BlockComment ==> n.text_s().len() >= 2 && n.text_s()[0] == '/' && n.text_s()[1] == '*',
+        // a paragraph break holds at least two line breaks
+        n.kind_s() == SyntaxKind::Parbreak ==> count_newlines_s(n.text_s()) >= 2,
         // only line comments start with `//`
         n.kind_s() != SyntaxKind::LineComment ==> !is_lc(n.text_s()) && !is_lc(n.full_text_s()),
         // literal keywords
